@@ -448,7 +448,7 @@ impl Evidence {
     }
 
     pub fn write(&self) -> std::io::Result<PathBuf> {
-        let dir = verif_root().join("evidence");
+        let dir = std::env::var_os("VERIF_EVIDENCE_OUT").map(PathBuf::from).unwrap_or_else(|| verif_root().join("evidence"));
         std::fs::create_dir_all(&dir)?;
         let p = dir.join(format!("{}.json", self.prop));
         let mut coverage = serde_json::Map::new();
@@ -484,7 +484,8 @@ impl Evidence {
 }
 
 pub fn write_replay(prop: &str, f: &Failure) -> PathBuf {
-    let dir = verif_root().join("replays").join(prop);
+    // sensitivity runs (VERIF_REPO set by the driver) write their replays elsewhere
+    let dir = std::env::var_os("VERIF_REPLAY_OUT").map(PathBuf::from).unwrap_or_else(|| verif_root().join("replays")).join(prop);
     let _ = std::fs::create_dir_all(&dir);
     let doc = json!({"property": prop, "sub": f.sub, "reason": f.reason, "case": f.case});
     let h = hash128(&doc.to_string());
